@@ -135,6 +135,11 @@ func genDesc(r *core.Rand) *elfref.Desc {
 	if d.Class == 2 && odd(10) {
 		addr = 0x7fffff0000 + uint64(r.Intn(1024))*4
 	}
+	if d.Class == 2 && odd(30) {
+		// code at the very top of the address space: sections that end at
+		// or wrap around 2^64
+		addr = ^uint64(0) - uint64(4*r.Intn(24)) - 3
+	}
 	type region struct{ off, addr, size uint64 }
 	var code []region
 	nCode := r.Weighted([]int{1, 6, 3, 1})
@@ -239,6 +244,10 @@ func genDesc(r *core.Rand) *elfref.Desc {
 		case 6: // segment claims more file bytes than the file has
 			seg.Filesz += 0x8000
 			seg.Memsz = seg.Filesz
+			d.Progs = append(d.Progs, seg)
+		case 7: // absurd file size AND memory size (consistent with each other)
+			seg.Filesz = uint64(1) << uint(r.Range(27, 62))
+			seg.Memsz = seg.Filesz + uint64(r.Intn(4096))
 			d.Progs = append(d.Progs, seg)
 		default:
 			seg.Filesz += dataSize
